@@ -306,6 +306,10 @@ pub enum SinkKind {
     CollectChannel,
     ForEach,
     CollectVecAll,
+    /// collect_all::<Vec<_>>(): the whole result on every host
+    CollectAll,
+    /// collect_channel_parallel(): no repartition, every host receives what its replicas produced
+    CollectChannelParallel,
 }
 
 /// A loop. The body is a list of steps over local stream ids: local id 0 is the loop input; ids
